@@ -19,6 +19,7 @@ func init() {
 	register(&RuleSet{
 		ID: "C01",
 		Explanation: "R1 verification core (functions of package verify calling (*x509.Certificate).CheckSignature): ESP — a possibly-nil error return only after the chain check and the signature check both returned nil; content of the golden measurement is consumed for acceptance (functions taking *VMGoldenMeasurement, bytes.Equal on its fields) only after the signature check; static operands — chain check gets RootsOfTrust/Now of the options parameter, the signature is checked with the certificate returned by that chain check, algorithm constant x509.SHA256WithRSAPSS, message = the very field bytes that were unmarshalled into the golden measurement whose Cert was chain-checked (access-path equality, no store to the field anywhere in the repo's production code), signature operand = the endorsement's Signature. " +
+			"R3c the CLI's root-of-trust pool builders return a pool allocated empty by x509.NewCertPool (never the host store, a clone or a shared pool). " +
 			"R2 chain check (functions of package verify calling (*x509.Certificate).Verify): nil return only after Verify:ok on the certificate parsed from parameter 0, VerifyOptions has exactly Roots←parameter 1 and CurrentTime←parameter 2, Verify only after roots≠nil is known, returned certificate is the verified one. " +
 			"R3 entry points (exported functions / returned closures of verify, gcetcbendorsement, gcetcbendorsement/cmd that return error and receive roots of trust by type, plus CLI RunE functions that build a root pool): a possibly-nil return only after a call, that returned nil, of the core, of another entry point, or of go-sev-guest validate.SnpAttestation; every options literal carrying a CertPool built there takes pool and time from the entry point's own options (CLI: from the pool builder and the backend's Now), never from time.Now()/a fresh or system pool. " +
 			"R4 SNP registration: the options passed to validate.SnpAttestation have CertTableOptions stored in the same function with a map entry of Kind validate.CertEntryRequire whose Validate is the result of verify.SNP[Family]ValidateFunc. " +
@@ -470,6 +471,56 @@ func runC01(c *Ctx) {
 		if rel == "gcetcbendorsement/cmd" && f.Signature.Results().Len() == 2 && isCertPool(f.Signature.Results().At(0).Type()) {
 			poolBuilders[f] = true
 		}
+	}
+	// R3c: a pool builder of the CLI hands out a pool it allocated empty (x509.NewCertPool) and filled itself: no
+	// other producer of a *x509.CertPool (the host's TLS store, a clone of something, a package-level pool) reaches
+	// its result, so the trusted set is exactly what the builder added.
+	{
+		var bs []*ssa.Function
+		for f := range poolBuilders {
+			bs = append(bs, f)
+		}
+		sort.Slice(bs, func(i, j int) bool { return bs[i].Pos() < bs[j].Pos() })
+		for _, f := range bs {
+			psl := flow.NewSlicer(c.P)
+			bad := ""
+			nret := 0
+			for _, b := range f.Blocks {
+				ret, ok := b.Instrs[len(b.Instrs)-1].(*ssa.Return)
+				if !ok || len(ret.Results) == 0 {
+					continue
+				}
+				nret++
+				psl.Visit(ret.Results[0], func(v ssa.Value) bool {
+					if !isCertPool(v.Type()) {
+						if ex, ok := v.(*ssa.Extract); !ok || !isCertPool(ex.Type()) {
+							// only follow the pool itself (what is added to it is R3's and the readers' business)
+							if _, isTuple := v.Type().(*types.Tuple); !isTuple {
+								return false
+							}
+						}
+					}
+					switch x := v.(type) {
+					case *ssa.Call:
+						if cal := x.Call.StaticCallee(); cal == nil || cal.String() != "crypto/x509.NewCertPool" {
+							bad = "the pool returned comes from " + callName(x)
+						}
+						return false
+					case *ssa.Global:
+						bad = "the pool returned is the package-level " + x.Name()
+						return false
+					case *ssa.Parameter:
+						bad = "the pool returned is the caller's own object " + x.Name()
+						return false
+					}
+					return true
+				}, nil)
+			}
+			if nret > 0 {
+				c.S.Check(bad == "", "R3c", load.FuncName(f)+":pool origin", c.pos(f.Pos()), "the pool handed out is allocated empty by x509.NewCertPool in the builder", bad+", not from x509.NewCertPool: certificates the caller never named become roots of trust")
+			}
+		}
+		c.S.Floor("R3c", "root-of-trust pool builders in the CLI", 1, len(bs))
 	}
 	for _, f := range c.P.RepoFunctions() {
 		if c.isTestFunc(f) || !returnsError(f) || isChain(f) {
